@@ -196,7 +196,12 @@ void blast()
           break;
         if (r == -1) temp_read();
         if (ch != '\n') {
+          /* bare CR ends the line: ch starts a new one and needs
+           * the same dot-stuffing and CR handling as any other line */
           substdio_put(&smtpto, "\r\n", 2);
+          if (ch == '.')
+            substdio_put(&smtpto,".",1);
+          continue;
         } else
           break;
       }
